@@ -94,7 +94,7 @@ func runC09(w *World, r *Report) {
 	for t := range compiled {
 		armedOwners[t] = true
 	}
-	for _, n := range []struct{ p, t string }{{"internal/callbacks", "manager"}, {"compose", "NodePath"}, {"compose", "Option"}} {
+	for _, n := range []struct{ p, t string }{{"internal/callbacks", "manager"}, {"compose", "NodePath"}, {"compose", "Option"}, {"flow/agent", "AgentOption"}} {
 		armedOwners[w.Named(n.p, n.t)] = true
 	}
 	ruleAppendAlias(w, r, "C09.append-alias", armedOwners, w.RepoFuncs("compose", "internal", "flow", "callbacks", "schema"), reach)
